@@ -373,7 +373,7 @@ TCReturn ==
     /\ Is("CReturn") /\ Adv
     /\ cmax' = IF E.err = "" /\ E.hdr > cmax THEN E.hdr ELSE cmax
     /\ viol' = viol \cup (IF E.err = "" THEN V(floor >= E.hdr \/ floor >= cmax, "FloorAccepted") ELSE {})
-                    \cup (IF E.err = "" THEN V(E.hdr <= cm, "CompactClampCommitted") ELSE {})
+                    \cup (IF E.err = "" THEN V(E.hdr <= maxRev, "CompactClampCommitted") ELSE {})   \* (cm may lag behind in the log; maxRev bounds it)
                     \cup (IF E.err = "" /\ E.minunc > 0 THEN V(E.hdr < E.minunc, "CompactClamp") ELSE {})
     /\ UNCHANGED <<idx, ver, hv, floor, cm, base, pend, maxRet, seen, maxRev, evlog, ws, rds, prefixes, expiring>>
 
